@@ -40,6 +40,11 @@ type EWCase struct {
 	Lo       int64   `json:"lo,omitempty"` // Clamp bounds
 	Hi       int64   `json:"hi,omitempty"`
 	Engine   string  `json:"engine,omitempty"` // "" (StdEng) | "f64" | "f32"
+	// Pre: an unrelated call that the library must refuse is made first, with a reuse / increment tensor
+	// that would fit THIS call ("reuse-dtype", "incr-dtype": wrong element type for the refused call;
+	// "reuse-size": wrong size). The refusal must leave nothing behind: this call neither touches nor
+	// returns that tensor.
+	Pre string `json:"pre,omitempty"`
 	Tol      float64 `json:"-"`
 }
 
@@ -62,7 +67,7 @@ func (c *EWCase) NTKey() string {
 			return ""
 		}
 	}
-	return fmt.Sprintf("%s|%s|%s|%s|%s|%s|%v|%v|%v|%v|%v|%v", c.Op, c.DT, c.Form, c.Via, c.Mode, c.Engine, c.SameType, c.ScT, c.A.Shape, c.A.L, layoutOf(c.B), layoutOf(c.Dst))
+	return fmt.Sprintf("%s|%s|%s|%s|%s|%s|%v|%v|%v|%v|%v|%v|%s", c.Op, c.DT, c.Form, c.Via, c.Mode, c.Engine, c.SameType, c.ScT, c.A.Shape, c.A.L, layoutOf(c.B), layoutOf(c.Dst), c.Pre)
 }
 
 func layoutOf(o *Opnd) string {
@@ -354,10 +359,51 @@ func (c *EWCase) Run() string {
 	case "reuseB", "reuseBv":
 		dest = B
 	}
+	// ---- a refused call beforehand
+	var preR *tensor.Dense
+	var preM Arr
+	if c.Pre != "" && len(A.arr.Shape) > 0 {
+		od := dtInt16
+		if resDT.Name == "int16" {
+			od = dtInt32
+		}
+		x := tensor.New(tensor.Of(od.T), tensor.WithShape(A.arr.Shape...))
+		y := tensor.New(tensor.Of(od.T), tensor.WithShape(A.arr.Shape...))
+		preM = seqArr(resDT, A.arr.Shape, 77)
+		preR = tensor.New(tensor.WithShape(A.arr.Shape...), tensor.WithBacking(mkBacking(resDT, preM.E)))
+		var perr error
+		pp := try(func() {
+			switch c.Pre {
+			case "reuse-dtype":
+				_, perr = tensor.Add(x, y, tensor.WithReuse(preR))
+			case "incr-dtype":
+				_, perr = tensor.Add(x, y, tensor.WithIncr(preR))
+			case "reuse-size":
+				z := tensor.New(tensor.Of(od.T), tensor.WithShape(prod(A.arr.Shape)+1))
+				_, perr = tensor.Add(z, z, tensor.WithReuse(preR))
+			default:
+				panic("HARNESS: unknown pre " + c.Pre)
+			}
+		})
+		if pp != "" || perr == nil {
+			preR = nil // not refused (or not with an error): nothing to follow up here
+			rec.Class("pre:not-refused")
+		} else {
+			rec.Class("pre:" + c.Pre)
+		}
+	}
 	// ---- the call
 	var res tensor.Tensor
 	var lerr error
 	pan := try(func() { res, lerr = c.call(A.b.T, B, sc, d, opts) })
+	if preR != nil {
+		if r, ok := res.(*tensor.Dense); ok && r == preR {
+			return fmt.Sprintf("%s.%s(%s, mode %s) returned the tensor that an earlier, refused call was offered as its %s destination", c.Fam, c.Op, c.DT, c.Mode, c.Pre)
+		}
+		if m := compareAt(preR, preM, bitEqVal); m != "" {
+			return fmt.Sprintf("%s.%s(%s, mode %s) wrote into the tensor that an earlier, refused call was offered as its %s destination: %s", c.Fam, c.Op, c.DT, c.Mode, c.Pre, m)
+		}
+	}
 	desc := fmt.Sprintf("%s.%s(%s %s via %s, mode %s same=%v eng=%q) a=%v%v b=%v dst=%v", c.Fam, c.Op, c.DT, c.Form, c.Via, c.Mode, c.SameType, c.Engine, c.A.Shape, c.A.L, descB(c, sc), layoutOf(c.Dst))
 	if pan != "" && hasUndef && !mustRefuse && c.Op != "MinBetween" && c.Op != "MaxBetween" {
 		rec.Class("int-div-by-zero-panic")
